@@ -558,21 +558,17 @@ func (t timeSerializer) serialize(ctx context.Context, typ sql.Type, value inter
 	// NOTE: Dolt always uses 6 digits of precision. When Dolt starts supporting other time precisions,
 	//       this code will need to change.
 	microseconds := durationInMicroseconds % 1_000_000
-	if negative && microseconds > 0 {
-		seconds++
-		if seconds == 60 {
-			seconds = 0
-			minutes += 1
-		}
-		if minutes == 60 {
-			minutes = 0
-			hours += 1
-		}
-		microseconds = 0x1000000 - microseconds
-	}
 
 	// Prepare the 3 byte hour/minute/second component
-	hms := hours<<12 | minutes<<6 | seconds + 0x800000
+	hms := hours<<12 | minutes<<6 | seconds
+	if negative && microseconds > 0 {
+		// TIME2 stores a negative value as the two's complement of the 48-bit number formed by the packed
+		// hour/minute/second integer followed by the 24-bit fraction. The borrow from the fraction is a plain
+		// integer increment of the packed value, not a carry from seconds into minutes and hours.
+		hms++
+		microseconds = 0x1000000 - microseconds
+	}
+	hms += 0x800000
 	if negative {
 		hms *= -1
 	}
